@@ -117,7 +117,7 @@ pub fn run(ctx: &Ctx) {
         blocks.push(Block::new(Universe::new("U_adv(units)", &["a\u{1f3fb}", "\u{1f4a9}", "a", "{", "1"], 5, 1, false), grid(&[R, R | E, R | D], 3), "{r, r+e, r+d} x 3x3"));
         blocks.push(Block::new(u_kind_pairs(3, 1, false), vec![Cfg::new(0), Cfg::new(X), Cfg::new(R), Cfg::with(R, 2, 1), Cfg::with(R, 1, 2)], "{}, x, r, r(2,1), r(1,2)"));
         blocks.push(Block::new(u_long_rep(30), grid(&[R], 3), "r x 3x3 thresholds"));
-        blocks.push(Block::new(u_long_runs(40), grid(&[R], 3), "r x 3x3 thresholds"));
+        blocks.push(Block::new(u_long_runs(100), grid(&[R], 3), "r x 3x3 thresholds"));
         blocks.push(Block::new(u_count_gaps(), grid(&[R], 3), "r x 3x3 thresholds"));
         blocks.push(Block::new(u_nested_rep(), grid(&[R], 3), "r x 3x3 thresholds"));
         blocks.push(Block::new(u_long_units(), grid(&[R], 3), "r x 3x3 thresholds"));
@@ -140,4 +140,36 @@ pub fn run(ctx: &Ctx) {
         blocks.push(Block::new(u_kind_pairs(3, 1, false), vec![Cfg::new(0), Cfg::new(X), Cfg::new(E), Cfg::new(I), Cfg::with(0, 2, 2)], "no r: {}, x, e, i, thresholds (2,2)"));
     }
     sweep(ctx, &blocks, check_case);
+    // thresholds given while repetition conversion is still off, a build, then conversion switched on: the second
+    // build must honour the thresholds exactly like a builder configured in one go
+    {
+        let inputs: Vec<Vec<String>> = vec![vec!["aaabbbbbcc".into(), "xyxyxyzzzz".into()], vec!["ababab zzzz".into()], vec!["aabaabaab".into()], vec!["aaaa".into(), "aaaaaa".into(), "b".into()]];
+        let mut n = 0;
+        for t in &inputs {
+            for (m, l) in [(2u32, 1u32), (3, 1), (1, 2), (2, 2), (3, 3), (1, 1)] {
+                for first_build in [true, false] {
+                    n += 1;
+                    ctx.run.eval();
+                    let tt = t.clone();
+                    let got = std::panic::catch_unwind(move || {
+                        let mut b = grex::RegExpBuilder::from(&tt);
+                        b.with_minimum_repetitions(m);
+                        b.with_minimum_substring_length(l);
+                        if first_build {
+                            let _ = b.build();
+                        }
+                        b.with_conversion_of_repetitions();
+                        b.build()
+                    });
+                    let cfg = Cfg::with(R, m, l);
+                    if let (Ok(g), Ok(w)) = (got, cfg.build(t)) {
+                        if g != w {
+                            crate::findings::report(ctx, viol("C13", "string", format!("thresholds-set-before-r-not-honoured after_build={first_build}"), t, &cfg, &g, json!({"expected": w, "history": ["min_repetitions", "min_substring_length", if first_build {"build"} else {"-"}, "with_conversion_of_repetitions", "build"]})));
+                        }
+                    }
+                }
+            }
+        }
+        ctx.run.space(json!({"universe": "4 repeat-rich inputs", "settings": "histories [thresholds, build?, r, build] x 6 threshold pairs", "cases": n}));
+    }
 }
